@@ -169,7 +169,17 @@ func runC18(t *sim.T, tier string) *sim.Violation {
 	staticHeavy := false
 	var stIn [][]byte
 	for i := 0; i < nST; i++ {
-		m := gen.GenStatic(t, gen.DrawStaticCfg(t, false))
+		scfg := gen.DrawStaticCfg(t, false)
+		if t.Chance(1, 4) {
+			// long trips and many rows: per-trip work big enough for implementations to hand it to helpers
+			scfg.StopTimesPerTrip = t.Range(30, 70)
+			if scfg.Trips < 4 {
+				scfg.Trips = 4 + t.Choose(8)
+			}
+			scfg.Interleave = t.Chance(1, 2)
+			staticHeavy = true
+		}
+		m := gen.GenStatic(t, scfg)
 		if t.Chance(1, 3) {
 			// archives that fail part-way (empty or torn member, missing column, ...): error paths of one
 			// caller run next to successful parses of the others
